@@ -57,8 +57,9 @@ CHECKS = {
                 technique="symbolic execution of Container.create_solution (exact solve contract); constraints re-checked on the result and feasibility vs an independent Cramer oracle, z3",
                 text="for 1-2 (thorough 3) solutes, pure or container solvents, every pair of (concentration, quantity, "
                      "total) and 15 concentration spellings: key set, positivity, every stated concentration / quantity / "
-                     "total met by the returned contents, container solvent depleted by a uniform aliquot with nothing "
-                     "lost; acceptance iff the independent linear system has a unique positive solution."),
+                     "total met by the returned contents (over-determined requests: each stated value to a relative 2e-6), container "
+                     "solvent depleted by a uniform aliquot with nothing lost, also when it already holds the solute; "
+                     "acceptance iff the independent linear system has a unique positive solution."),
     'C12': dict(engine=E1, design='§4 C12',
                 technique="symbolic execution of Container.create_solution_from (exact solve contract); result re-checked against definitions and an independent 2x2 oracle, z3",
                 text="requested total and concentration met, new solution = uniform aliquot of the stock (+ of the solvent "
@@ -89,9 +90,10 @@ CHECKS = {
                      "ledger's gains/losses, flows >= 0 and in - out = change in remaining, output rounding modelled."),
     'C16': dict(engine=E1, design='§4 C16',
                 technique="abstract-state fixpoint exploration of the real Recipe object (native BFS), then symbolic execution of every (representative history, call) pair with symbolic step quantities; z3 decides bake feasibility forks; verdicts vs a reference automaton",
-                text="every call of a 29-call alphabet from every reachable abstract lifecycle state (quick: depth 4, "
+                text="every call of a 31-call alphabet from every reachable abstract lifecycle state (quick: depth 4, "
                      "thorough: fixpoint) gets the reference automaton's verdict and successor state; after a successful "
-                     "bake every call raises RuntimeError and steps, results and tracking answers do not change. The "
+                     "bake every call raises RuntimeError and steps, results and tracking answers do not change; a refused "
+                     "bake leaves the recipe's objects and steps as they were. The "
                      "solver's part is the feasibility of bake over symbolic quantities; the universal quantification over "
                      "call sequences is by exhaustion of abstract states, stated as such."),
     'C04': dict(engine=E1, design='§4 C04',
@@ -114,14 +116,19 @@ CHECKS = {
                 level_text="Symbolic execution of the real Slicer/Plate.__getitem__ code by CrossHair 0.0.110 (z3) over unbounded symbolic integers and bounded symbolic strings, differential against an independent reference model of the documented addressing rules. Conditions reported 'Confirmed over all paths' are exhaustive within the stated bounds; 'Not confirmed' ones are bug-hunting only (no counterexample within the time budget) and are listed as such in the evidence. Counterexamples are replayed natively before being reported.",
                 note="Trusted: CrossHair's models of int/str/Optional, z3, CPython, numpy basic slicing, the 40-line reference model in vf/xh/c13_conditions.py.",
                 technique="CrossHair symbolic execution (z3) of Plate.__getitem__ / Slicer over symbolic int/str selectors, differential vs a reference selection model",
-                text="14 selector forms x 4 (quick) / 7 (thorough) plate shapes and labelings: the wells selected by the real "
-                     "code, in order, equal the reference model's, and out-of-range / malformed selectors are rejected."),
+                text="15 selector forms x 5 (quick) / 8 (thorough) plate shapes and labelings (default, custom, digit strings, labels "
+                     "differing only in whitespace): the wells selected by the real code, in order, equal the reference "
+                     "model's, and out-of-range / malformed selectors are rejected; for custom-labelled plates every selector is "
+                     "first resolved on a twin plate with permuted labels (process history)."),
     'C14': dict(engine=E1, design='§4 C14',
                 technique="symx: symbolic values inside quantity/concentration strings, parsed value vs SI table (z3 / canonical forms); CrossHair: the string itself symbolic, accept/reject and value vs an independent recogniser",
                 text="parse_quantity / parse_concentration return v*m(prefix) resp. v*m(pn)/(w*m(pd)) for the complete "
                      "prefix x unit tables, 6 classes of equivalent spellings parse equal and give identical containers "
-                     "through construction, transfer, create_solution, dilute, fill_to and get_concentration; with the "
-                     "string symbolic (CrossHair) malformed strings are rejected and well-formed ones accepted."),
+                     "through construction, transfer, create_solution, dilute, fill_to and get_concentration; small values "
+                     "with small prefixes keep six significant digits (delta rounding model); with the string symbolic "
+                     "(CrossHair) malformed strings are rejected and well-formed ones accepted, a value with any one printable "
+                     "ASCII character inserted means what float() says or is rejected, and each of 9 API slots accepts exactly "
+                     "its kinds of unit over the whole prefix x base table (a molarity is not an amount, a mass not a capacity)."),
     'C02': dict(engine=E1, design='§4 C02',
                 technique="symbolic execution of Container.transfer/Plate.transfer with z3 (QF_NRA/LRA), differential vs independent unit table",
                 text="size of the aliquot (in the unit of q), uniformity (cross-multiplied ratios) and destination gain "
